@@ -19,24 +19,37 @@ ALLK = ['root0', 'root3', 'item', 'mval', 'bkey', 'ckey', 'fitem', 'fnext', 'fke
 SBASE = dict(Fix=[], Alpha=[97, 32, 10], MaxLen=6, Kinds=['item'], Bests=[2], Widths=[5], Depths=[1], Unis=[False],
              LBs=['n'], Reqs=['none', 'single', 'double', 'literal', 'folded'])
 SCONF = {
-    'wsl':  dict(SBASE, Kinds=['item', 'root0', 'mval', 'bkey', 'ckey', 'fitem', 'fkey'], Depths=[1, 3]),
-    'full': dict(SBASE, Alpha=FULL, MaxLen=2, Kinds=ALLK, Widths=[80], Unis=[True, False]),
-    'esc':  dict(SBASE, Alpha=[97, 32, 10, 233, 7], MaxLen=5, Depths=[1, 3]),
-    'b4':   dict(SBASE, Bests=[4, 9], Widths=[9, 19], Depths=[1, 3]),
-    'lb':   dict(SBASE, MaxLen=5, Kinds=['item', 'root0', 'fitem'], LBs=['r', 'rn']),
+    'wsl':  dict(SBASE, MaxLen=5, Kinds=['item', 'root0', 'bkey', 'fitem'], Depths=[1, 3]),
+    'full': dict(SBASE, Alpha=FULL, MaxLen=2, Kinds=['item', 'fitem'], Widths=[80], Unis=[True, False]),
+    'esc':  dict(SBASE, Alpha=[97, 32, 233, 7], MaxLen=5, Depths=[3]),
+    'b4':   dict(SBASE, MaxLen=5, Bests=[4], Widths=[9], Depths=[1, 3]),
+    'lb':   dict(SBASE, MaxLen=4, Kinds=['item', 'root0'], LBs=['r', 'rn']),
     # thorough
-    'wsl+':  dict(SBASE, MaxLen=8, Kinds=['item', 'root0', 'root3', 'mval', 'bkey', 'ckey', 'fitem', 'fnext', 'fkey', 'fval'],
-                  Depths=[1, 2, 3], Widths=[5, 8]),
-    'full+': dict(SBASE, Alpha=FULL, MaxLen=3, Kinds=ALLK, Widths=[80, 5], Unis=[True, False]),
-    'esc+':  dict(SBASE, Alpha=[97, 32, 10, 233, 7, 34, 133], MaxLen=6, Depths=[1, 3], Unis=[True, False], Kinds=['item', 'fitem']),
-    'brk+':  dict(SBASE, Alpha=[97, 32, 10, 133, 8232], MaxLen=6, Kinds=['item', 'root0', 'mval', 'fitem'], Unis=[True]),
-    'b4+':   dict(SBASE, MaxLen=7, Bests=[4, 9], Widths=[9, 19, 80], Depths=[1, 2, 3], Kinds=['item', 'mval', 'fitem']),
-    'lb+':   dict(SBASE, MaxLen=6, Kinds=['item', 'root0', 'mval', 'fitem', 'bkey'], LBs=['r', 'rn'], Depths=[1, 3]),
+    'wsl+':  dict(SBASE, MaxLen=7, Kinds=ALLK, Depths=[1, 3]),
+    'w8+':   dict(SBASE, MaxLen=8, Kinds=['item', 'mval', 'fitem'], Widths=[8], Depths=[1, 2]),
+    'full+': dict(SBASE, Alpha=FULL, MaxLen=3, Kinds=['item'], Widths=[80], Unis=[True, False]),
+    'ctx+':  dict(SBASE, Alpha=FULL, MaxLen=2, Kinds=ALLK, Widths=[80, 5], Unis=[True, False]),
+    'esc+':  dict(SBASE, Alpha=[97, 32, 10, 233, 7, 34], MaxLen=5, Depths=[1, 3], Kinds=['item', 'fitem']),
+    'brk+':  dict(SBASE, Alpha=[97, 32, 10, 133, 8232], MaxLen=5, Kinds=['item', 'root0', 'mval', 'fitem'], Unis=[True]),
+    'b4+':   dict(SBASE, MaxLen=6, Bests=[4, 9], Widths=[9, 19], Depths=[1, 3], Kinds=['item', 'mval', 'fitem']),
+    'lb+':   dict(SBASE, MaxLen=5, Kinds=['item', 'root0', 'mval', 'fitem', 'bkey'], LBs=['r', 'rn'], Depths=[1, 3]),
 }
-STIERS = {'quick': ['wsl', 'full', 'esc', 'b4', 'lb'], 'thorough': ['wsl+', 'full+', 'esc+', 'brk+', 'b4+', 'lb+']}
+STIERS = {'quick': ['wsl', 'full', 'esc', 'b4', 'lb'], 'thorough': ['wsl+', 'w8+', 'full+', 'ctx+', 'esc+', 'brk+', 'b4+', 'lb+']}
 PAIRS = [('python', 'Dumper', 'python', 'Loader'), ('python', 'Dumper', 'libyaml', 'CLoader'),
          ('libyaml', 'CDumper', 'libyaml', 'CLoader'), ('libyaml', 'CDumper', 'python', 'Loader')]
 CMP = ('k', 'a', 't', 'v', 'ver', 'tags')
+
+
+_T0 = [None]
+
+
+def _t(label):
+    """phase timing on stderr when VERIF_TIMING is set (development aid; no effect on verdicts)"""
+    import sys, time
+    if os.environ.get('VERIF_TIMING'):
+        now = time.time()
+        sys.stderr.write('[%s +%.1fs] %s\n' % ('C05', now - (_T0[0] or now), label))
+        _T0[0] = now
 
 
 def tla(v):
@@ -52,8 +65,8 @@ def identical(ein, eout):
 
 
 def calibrate(yaml):
-    """Which repairs does the tree under test already contain?  Three witnesses (TLC counterexamples of Scalars.tla with
-    Fix = {}) are run through the real Python emitter; the answer only selects the L variant that is model-checked and
+    """Which repairs does the tree under test already contain?  Five witnesses (TLC counterexamples of Scalars.tla /
+    Emitter.tla with Fix = {}) are run through the real Python emitter; the answer only selects the L variant that is model-checked and
     compared for drift - verdicts never depend on it."""
     E = yaml.events
     fix = []
@@ -70,6 +83,15 @@ def calibrate(yaml):
             back = None
         if back == [value]:
             fix.append(name)
+    wrap = lambda ds, sc: [E.StreamStartEvent(), ds, sc, E.DocumentEndEvent(), E.StreamEndEvent()]
+    for name, evs in (('D5', wrap(E.DocumentStartEvent(tags={'!u!': 't:\xe9:'}), E.ScalarEvent(None, None, (True, False), 'a'))),
+                      ('D10e', wrap(E.DocumentStartEvent(), E.ScalarEvent(None, '!', (True, True), '')))):
+        try:
+            n = sum(1 for e in yaml.parse(yaml.emit(evs, Dumper=yaml.Dumper), Loader=yaml.Loader) if isinstance(e, E.ScalarEvent))
+        except Exception:
+            n = 0
+        if n == 1:
+            fix.append(name)
     return fix
 
 
@@ -78,7 +100,7 @@ def scal_work(states, extra):
     yaml = use_repo()
     rnd = random.Random(extra['seed'])
     out = {'n': 0, 'pairs': 0, 'traces': [], 'meta': [], 'same': 0, 'drift': [], 'ndrift': 0, 'lbad': {}, 'styles': {},
-           'folds': 0, 'samples': []}
+           'folds': 0, 'samples': [], 'cxs': set()}
     for st in states:
         out['n'] += 1
         text, cx, res = st['text'], st['cx'], st['res']
@@ -86,6 +108,7 @@ def scal_work(states, extra):
             res = {}
         opts = ep.ctx_opts(cx)
         prefix = ep.ctx_prefix(cx)
+        out['cxs'].add((cx['flow'], cx['sk'], cx['root'], cx['ws0'], cx['c0'], cx['indent']))
         for sname, r in res.items():
             out['styles'][sname] = out['styles'].get(sname, 0) + 1
             lb = ep.LB[cx['lb']]
@@ -99,7 +122,9 @@ def scal_work(states, extra):
                 variants.append(alt)
             for vi, value in enumerate(variants):
                 for em, D, pa, L in PAIRS:
-                    if vi and (em, pa) not in (('python', 'python'), ('libyaml', 'libyaml')):
+                    if vi and (em, pa) not in (('python', 'python'), ('libyaml', 'libyaml'))[:extra['altpairs']]:
+                        continue
+                    if not vi and extra['altpairs'] == 1 and (em, pa) == ('libyaml', 'python'):
                         continue
                     evs, idx = ep.ctx_events(yaml, cx, value, r['req'], r['impl'])
                     o = ep.emit_parse(yaml, evs, getattr(yaml, D), getattr(yaml, L), opts)
@@ -132,13 +157,18 @@ def scal_work(states, extra):
     return out
 
 
-def run_scalars(v, tier, fix, acc):
-    for name in STIERS[tier]:
-        if os.environ.get('C05_DEV') and name not in os.environ['C05_DEV'].split(','):
+def scalar_jobs(tier, fix):
+    names = [n for n in STIERS[tier] if not os.environ.get('C05_DEV') or n in os.environ['C05_DEV'].split(',')]
+    return [('scal_' + name, dict(module='MC_Scalars', cfg='MC_Scalars.cfg', dump=True, tag='C05_scal_' + name, timeout=3000,
+                                  coverage=False, constants={k: tla(x) for k, x in dict(SCONF[name], Fix=fix).items()}))
+            for name in names]
+
+
+def run_scalars(v, tier, results, acc, pending):
+    for key, r in results.items():
+        if not key.startswith('scal_'):
             continue
-        conf = dict(SCONF[name], Fix=fix)
-        r = tlc.run('MC_Scalars', cfg='MC_Scalars.cfg', dump=True, tag='C05_scal_' + name, timeout=3000, coverage=False,
-                    constants={k: tla(x) for k, x in conf.items()})
+        name = key[5:]
         if r.violated:
             print(r.out[-3000:])
             raise SystemExit('machinery failure: Scalars.tla violates %s in configuration %s (an undiagnosed L => H failure: '
@@ -146,19 +176,16 @@ def run_scalars(v, tier, fix, acc):
         tlc.require_ok(r, 'MC_Scalars/' + name)
         acc['states'] += r.distinct
         acc['trans'] += r.generated
-        outs = mbt.pmap(scal_work, r.dump, {'seed': SEED * 7919 + len(name), 'sample': 0.005 if tier == 'quick' else 0.002})
+        outs = mbt.pmap(scal_work, r.dump, {'seed': SEED * 7919 + len(name), 'sample': 0.005 if tier == 'quick' else 0.002,
+                                            'altpairs': 1 if tier == 'quick' else 2})
         os.remove(r.dump)
         if sum(o['n'] for o in outs) != r.distinct:
             raise SystemExit('machinery failure: replayed %d states, TLC found %d' % (sum(o['n'] for o in outs), r.distinct))
-        traces = [t for o in outs for t in o['traces']]
-        meta = [m for o in outs for m in o['meta']]
-        verdicts, s2 = trace.judge('Trace_EmitParse', traces, 'C05_scal_' + name)
-        acc['states'] += s2
         acc['pairs'] += sum(o['pairs'] for o in outs)
-        acc['judged'] += len(traces)
         acc['same'] += sum(o['same'] for o in outs)
         acc['folds'] += sum(o['folds'] for o in outs)
         for o in outs:
+            acc.setdefault('scal_cxs', set()).update(o['cxs'])
             acc['samples'] += o['samples'][:1]
             for k, n in o['styles'].items():
                 acc['styles'][k] = acc['styles'].get(k, 0) + n
@@ -169,14 +196,10 @@ def run_scalars(v, tier, fix, acc):
             ex = [d for o in outs for d in o['drift']][:2]
             v.note('spec-drift C05/scalars/%s: %d cases where the Python emitter differs from Scalars.tla (text, style or '
                    'round-trip prediction), e.g. %s' % (name, nd, json.dumps(ex)[:900]))
-        for m, t, (ok, why, at) in zip(meta, traces, verdicts):
-            if not ok:
-                clause, _, defect = why.partition(':')
-                v.violation({'emitter': m['emitter'], 'parser': m['parser'], 'clause': clause, 'defect': defect or clause,
-                             'style': m['style'], 'part': 'scalars'},
-                            dict(m, config=name, outcome=t['outcome'], at_event=at,
-                                 value_out=ep.text_of(t['eout'][at - 1].get('v', [])) if 0 < at <= len(t['eout']) else None))
-
+        for o in outs:
+            for m, t in zip(o['meta'], o['traces']):
+                pending.append((dict(m, part='scalars', config=name), t))
+        _t('replay scalars/' + name)
 
 
 # ------------------------------------------------------------------ part B: Emitter.tla
@@ -184,7 +207,8 @@ EBASE = dict(Fix=[], Variant='"python"', Mode='"grammar"', MaxEvents=7, MaxDocs=
              Unis=[False], LBs=['n'], Vs=['word', 'empty'], Ss=['none'], SAs=[''], STs=[''], SIs=['tf'], CAs=[''], CTs=[''],
              CIs=[True], FSs=[False, True], AAs=['a1'], DXs=[False], DVs=[''], DTs=[''], EXs=[False])
 ECONF = {
-    'struct': dict(EBASE, MaxEvents=8, Vs=['word', 'empty', 'multiline']),
+    'struct': dict(EBASE, MaxEvents=9, Vs=['word', 'empty', 'multiline']),
+    'deep':   dict(EBASE, MaxEvents=10, Vs=['word'], AAs=[], FSs=[False]),
     'attrs':  dict(EBASE, MaxEvents=6, Vs=['word', 'empty', 'lead'], SAs=['', 'a1', 'bad'], FSs=[False],
                    STs=['', '!', 'local', 'core', 'uri', 'hdl', 'hu', 'empty'], SIs=['tf', 'ft', 'ff', 'tt'], CTs=['', 'local'],
                    CIs=[True, False], DTs=['', 'h1', 'hu'], DVs=['', '1.1']),
@@ -192,19 +216,25 @@ ECONF = {
                    Widths=[5, 80], Bests=[2, 4], Unis=[True, False], LBs=['n', 'rn'], CAs=['', 'a1']),
     'any':    dict(EBASE, Mode='"any"', MaxEvents=5, MaxDocs=5, SIs=['tf', 'ff'], AAs=['a1', ''], DVs=['', '2.0'], FSs=[False],
                    DTs=['', 'badh']),
+    'tagdocs': dict(EBASE, MaxEvents=8, MaxDocs=2, FSs=[], AAs=[], Vs=['word'], STs=['', 'hdl', 'local'], SIs=['tf', 'ff'],
+                    DTs=['', 'h1'], DXs=[False, True]),
     # thorough
     'struct+': dict(EBASE, MaxEvents=10, Vs=['word', 'empty', 'multiline'], MaxDocs=2),
     'styles+': dict(EBASE, MaxEvents=8, Vs=['word', 'empty', 'words', 'multiline', 'lead', 'trail', 'ind', 'nonascii', 'nl', 'nlnl',
                                             'docsep'], Ss=['none', 'single', 'double', 'literal', 'folded'], FSs=[False, True]),
     'attrs+':  dict(EBASE, MaxEvents=7, Vs=['word', 'empty', 'lead'], SAs=['', 'a1', 'bad', 'empty'], FSs=[False, True],
                     STs=['', '!', 'local', 'core', 'uri', 'hdl', 'hu', 'empty'], SIs=['tf', 'ft', 'ff', 'tt'], CTs=['', 'local', 'empty'],
-                    CAs=['', 'a2'], CIs=[True, False], DTs=['', 'h1', 'hu', 'badh', 'nop'], DVs=['', '1.1', '1.2', '2.0']),
-    'opts+':   dict(EBASE, MaxEvents=8, Vs=['word', 'long', 'nonascii', 'multiline'], Ss=['none', 'double', 'folded'],
-                    Canons=[True, False], Widths=[5, 80], Bests=[2, 4], Unis=[True, False], LBs=['n', 'r', 'rn'], CAs=['', 'a1']),
+                    CAs=['', 'a2'], CIs=[True, False], DTs=['', 'h1', 'hu']),
+    'dirs+':   dict(EBASE, MaxEvents=6, Vs=['word', 'empty'], STs=['', 'hdl', 'hu'], SIs=['tf', 'ff'], DXs=[False, True],
+                    DTs=['', 'h1', 'hu', 'badh', 'nop'], DVs=['', '1.1', '1.2', '2.0'], EXs=[False, True]),
+    'opts+':   dict(EBASE, MaxEvents=8, Vs=['word', 'long', 'nonascii', 'multiline'], Ss=['none', 'double'],
+                    Canons=[True, False], Widths=[5, 80], Bests=[2, 4], Unis=[True, False], LBs=['n', 'rn'], CAs=['', 'a1']),
+    'folds+':  dict(EBASE, MaxEvents=7, Vs=['long', 'multiline'], Ss=['none', 'folded', 'literal'], Widths=[5], LBs=['n', 'r', 'rn'],
+                    FSs=[False]),
     'any+':    dict(EBASE, Mode='"any"', MaxEvents=6, MaxDocs=6, SIs=['tf', 'ff'], AAs=['a1', ''], DVs=['', '2.0'],
-                    DTs=['', 'badh'], CIs=[True, False], SAs=['', 'empty']),
+                    DTs=['', 'badh'], FSs=[False]),
 }
-ETIERS = {'quick': ['struct', 'attrs', 'opts', 'any'], 'thorough': ['struct+', 'styles+', 'attrs+', 'opts+', 'any+']}
+ETIERS = {'quick': ['struct', 'deep', 'attrs', 'opts', 'any', 'tagdocs'], 'thorough': ['struct+', 'deep', 'styles+', 'attrs+', 'dirs+', 'opts+', 'folds+', 'any+', 'tagdocs']}
 KEEP = r'outcome \|-> "(done|EmitterError|Crash)"'
 METHODS = {"stream_start", "nothing", "first_document_start", "document_start", "document_end", "document_root",
            "first_flow_sequence_item", "flow_sequence_item", "first_flow_mapping_key", "flow_mapping_key",
@@ -298,14 +328,20 @@ def emit_work(states, extra):
     return out
 
 
-def run_emitter(v, tier, fix, acc):
+def emitter_jobs(tier, fix):
+    names = [n for n in ETIERS[tier] if not os.environ.get('C05_DEV') or n in os.environ['C05_DEV'].split(',')]
+    return [('emit_' + name, dict(module='MC_Emitter', cfg='MC_Emitter.cfg', dump=True, tag='C05_emit_' + name, timeout=3000,
+                                  coverage=False, constants={k: (x if isinstance(x, str) else tla(x))
+                                                             for k, x in dict(ECONF[name], Fix=fix).items()}))
+            for name in names]
+
+
+def run_emitter(v, tier, results, acc, pending):
     trail = set()
-    for name in ETIERS[tier]:
-        if os.environ.get('C05_DEV') and name not in os.environ['C05_DEV'].split(','):
+    for key, r in results.items():
+        if not key.startswith('emit_'):
             continue
-        conf = dict(ECONF[name], Fix=fix)
-        r = tlc.run('MC_Emitter', cfg='MC_Emitter.cfg', dump=True, tag='C05_emit_' + name, timeout=3000, coverage=False,
-                    constants={k: (x if isinstance(x, str) else tla(x)) for k, x in conf.items()})
+        name = key[5:]
         if r.violated:
             print(r.out[-3000:])
             raise SystemExit('machinery failure: Emitter.tla violates %s in configuration %s (undiagnosed L => H failure)'
@@ -317,18 +353,14 @@ def run_emitter(v, tier, fix, acc):
         os.remove(r.dump)
         if n != r.distinct:
             raise SystemExit('machinery failure: dump has %d states, TLC found %d' % (n, r.distinct))
-        traces = [t for o in outs for t in o['traces']]
-        meta = [m for o in outs for m in o['meta']]
-        verdicts, s2 = trace.judge('Trace_EmitParse', traces, 'C05_emit_' + name)
-        acc['states'] += s2
         acc['pairs'] += sum(o['pairs'] for o in outs)
-        acc['judged'] += len(traces)
         acc['same'] += sum(o['same'] for o in outs)
         acc['streams'] += sum(o['finals'] for o in outs)
         cxs = set()
         trail |= names
         for o in outs:
             cxs |= o['cxs']
+            acc.setdefault('emit_cxs', set()).update(c[1:] for c in o['cxs'])
             acc['samples'] += o['samples'][:1]
             for k, c in o['outcomes'].items():
                 acc['outcomes'][k] = acc['outcomes'].get(k, 0) + c
@@ -340,21 +372,14 @@ def run_emitter(v, tier, fix, acc):
             ex = [d for o in outs for d in o['drift']][:2]
             v.note('spec-drift C05/emitter/%s: %d streams where the Python emitter/parser differ from Emitter.tla/EmitRead.tla, '
                    'e.g. %s' % (name, nd, json.dumps(ex)[:1200]))
-        for m, t, (ok, why, at) in zip(meta, traces, verdicts):
-            if not ok:
-                clause, _, defect = why.partition(':')
-                sty = '-'
-                if clause == 'value':
-                    nsc = sum(1 for e in t['eout'][:at] if e['k'] == 'Scalar')
-                    sty = m['styles'][nsc - 1] if 0 < nsc <= len(m['styles']) else '-'
-                v.violation({'emitter': m['emitter'], 'parser': m['parser'], 'clause': clause, 'defect': defect or clause,
-                             'style': sty, 'site': m['site'], 'wellformed': bool(t['wf']), 'part': 'emitter'},
-                            dict(m, config=name, outcome=t['outcome'], at_event=at))
+        for o in outs:
+            for m, t in zip(o['meta'], o['traces']):
+                pending.append((dict(m, part='emitter', config=name), t))
+        _t('replay emitter/' + name)
     missing = METHODS - trail
-    if missing and not os.environ.get('C05_DEV'):
+    if missing and not os.environ.get('C05_DEV') and any(k.startswith('emit_') for k in results):
         raise SystemExit('machinery failure: emitter methods never executed in the model: %s' % sorted(missing))
     acc['methods_fired'] = len(trail & METHODS)
-
 
 
 # ------------------------------------------------------------------ part C: the repository's data files re-emitted
@@ -410,55 +435,94 @@ def corpus_work(args):
     return out
 
 
-def run_corpus(v, tier, acc):
+def run_corpus(v, tier, acc, pending):
     files = corpus_files()
-    nopts, nrand = (3, 1) if tier == 'quick' else (len(OPT_PRODUCT), 3)
+    nopts, nrand = (3, 1) if tier == 'quick' else (len(OPT_PRODUCT), 1)
     chunks = [(files[i::48], nopts, SEED, 0.01, nrand) for i in range(48)]
     with mp.Pool(16) as pool:
         outs = pool.map(corpus_work, chunks)
-    traces = [t for o in outs for t in o['traces']]
-    meta = [m for o in outs for m in o['meta']]
-    verdicts, s2 = trace.judge('Trace_EmitParse', traces, 'C05_corpus', batch=4000)
-    acc['states'] += s2
     acc['pairs'] += sum(o['pairs'] for o in outs)
-    acc['judged'] += len(traces)
     acc['same'] += sum(o['same'] for o in outs)
     acc['corpus_files'] = sum(o['files'] for o in outs)
     acc['corpus_streams'] = sum(o['streams'] for o in outs)
-    for m, t, (ok, why, at) in zip(meta, traces, verdicts):
-        if not ok:
-            clause, _, defect = why.partition(':')
-            sty = '-'
-            if clause == 'value':
-                nsc = sum(1 for e in t['eout'][:at] if e['k'] == 'Scalar')
-                sty = m['styles'][nsc - 1] if 0 < nsc <= len(m['styles']) else '-'
-            det = dict(m, outcome=t['outcome'], at_event=at)
-            if 0 < at <= len(t['ein']):
-                det['event_in'] = t['ein'][at - 1]
-                det['event_out'] = t['eout'][at - 1] if at <= len(t['eout']) else None
-            v.violation({'emitter': m['emitter'], 'parser': m['parser'], 'clause': clause, 'defect': defect or clause,
-                         'style': sty, 'part': 'corpus', 'input': m['input']}, det)
+    for o in outs:
+        for m, t in zip(o['meta'], o['traces']):
+            pending.append((dict(m, part='corpus'), t))
+    _t('corpus')
+
+
+def judge_pending(v, pending, acc):
+    """one TLC run (Trace_EmitParse.tla) judges every recorded observation; identical observations are judged once"""
+    uniq, index = {}, []
+    for m, t in pending:
+        index.append(uniq.setdefault(json.dumps(t, sort_keys=True), len(uniq)))
+    utraces = [json.loads(k) for k in uniq]
+    uverdicts, s2 = trace.judge('Trace_EmitParse', utraces, 'C05_judge', batch=25000)
+    acc['states'] += s2
+    acc['judged'] += len(utraces)
+    for (m, t), i in zip(pending, index):
+        ok, why, at = uverdicts[i]
+        if ok:
+            continue
+        clause, defect, kind = (why.split(':') + ['', ''])[:3]
+        if defect == 'empty-root-lost':
+            defect += ':' + kind
+        sty = m.get('style', '-')
+        if clause == 'value' and 'styles' in m:
+            nsc = sum(1 for e in t['eout'][:at] if e['k'] == 'Scalar')
+            sty = m['styles'][nsc - 1] if 0 < nsc <= len(m['styles']) else '-'
+        key = {'emitter': m['emitter'], 'parser': m['parser'], 'clause': clause, 'defect': defect or clause, 'style': sty,
+               'part': m['part']}
+        if 'site' in m:
+            key.update(site=m['site'], wellformed=bool(t['wf']))
+        if 'input' in m:
+            key['input'] = m['input']
+        det = dict(m, outcome=t['outcome'], at_event=at)
+        if 0 < at <= len(t['ein']):
+            det['event_in'] = t['ein'][at - 1]
+            det['event_out'] = t['eout'][at - 1] if at <= len(t['eout']) else None
+        v.violation(key, det)
+    _t('judge')
 
 
 def main(tier, replay=None):
     v = Verdict('C05', tier)
     yaml = use_repo()
     fix = calibrate(yaml)
-    acc = {'states': 0, 'trans': 0, 'pairs': 0, 'judged': 0, 'same': 0, 'folds': 0, 'samples': [], 'styles': {}, 'lbad': {}}
-    acc.update(streams=0, outcomes={})
-    if os.environ.get('C05_PARTS', 'ABC').find('A') >= 0:
-        run_scalars(v, tier, fix, acc)
-    if os.environ.get('C05_PARTS', 'ABC').find('B') >= 0:
-        run_emitter(v, tier, fix, acc)
-    if os.environ.get('C05_PARTS', 'ABC').find('C') >= 0:
-        run_corpus(v, tier, acc)
+    _t('start')
+    acc = {'states': 0, 'trans': 0, 'pairs': 0, 'judged': 0, 'same': 0, 'folds': 0, 'samples': [], 'styles': {}, 'lbad': {},
+           'streams': 0, 'outcomes': {}}
+    parts = os.environ.get('C05_PARTS', 'ABC')
+    jobs = (scalar_jobs(tier, fix) if 'A' in parts else []) + (emitter_jobs(tier, fix) if 'B' in parts else [])
+    # heaviest first; the searches are small, JVM start dominates: run them side by side
+    results = ep.run_tlc_many(jobs, parallel=4 if tier == 'quick' else 3, workers=4 if tier == 'quick' else 5)
+    _t('tlc x%d' % len(jobs))
+    pending = []
+    run_scalars(v, tier, results, acc, pending)
+    run_emitter(v, tier, results, acc, pending)
+    if 'C' in parts:
+        run_corpus(v, tier, acc, pending)
+    judge_pending(v, pending, acc)
     v.cov = {'states': acc['states'], 'transitions': acc['trans'], 'traces_validated_against_impl': acc['pairs'],
              'pairs_judged_by_tlc': acc['judged'], 'pairs_identical_on_all_compared_fields': acc['same'],
-             'scalar_styles_replayed': acc['styles'], 'model_diagnosed_defect_sites': acc['lbad'], 'event_streams_replayed': acc['streams'],
-             'model_outcomes': acc['outcomes'], 'emitter_methods_fired': acc.get('methods_fired'),
-             'emitter_scalar_contexts': acc.get('emitter_scalar_contexts'),
+             'scalar_styles_replayed': acc['styles'], 'model_diagnosed_defect_sites': acc['lbad'],
+             'event_streams_replayed': acc['streams'], 'model_outcomes': acc['outcomes'],
+             'emitter_methods_fired': acc.get('methods_fired'), 'emitter_scalar_contexts': acc.get('emitter_scalar_contexts'),
+             'emitter_scalar_contexts_also_in_scalars_family': len(acc.get('emit_cxs', set()) & acc.get('scal_cxs', set())),
+             'emitter_scalar_contexts_distinct': len(acc.get('emit_cxs', set())),
              'corpus_files': acc.get('corpus_files'), 'corpus_streams_re_emitted': acc.get('corpus_streams'),
              'model_outputs_with_a_fold_or_break': acc['folds'], 'L_variant_repairs_detected_in_tree': fix,
              'exhaustive': True, 'samples': acc['samples'][:6],
-             'configs': {n: SCONF[n] for n in STIERS[tier]}}
+             'distinct_nontrivial': acc['folds'] + acc['streams'],
+             'rule': 'non-trivial = scalar round trips whose written form contains a fold or line break, plus complete event '
+                     'streams replayed; every state of MC_Scalars / every terminal state of MC_Emitter is replayed through '
+                     'both emitters and both parsers; all non-identical pairs and a seeded sample of identical ones are judged '
+                     'by TLC (Trace_EmitParse.tla)',
+             'configs': {'scalars': {n: SCONF[n] for n in STIERS[tier]}, 'emitter': {n: ECONF[n] for n in ETIERS[tier]}}}
+    v.assumptions = ['scalar texts are sequences of Unicode scalar values (no lone surrogates)',
+                     'AliasEvent(anchor=None) with the libyaml emitter is an ill-typed argument (TypeError of the binding), not '
+                     'an ill-formed stream',
+                     'well-formed = event grammar + attribute rules (valid anchor names, non-empty tags, a tag or an implicit '
+                     'flag, version 1.x, well-formed %TAG handles)',
+                     'character classes are represented by several seeded representatives; results are per class']
     return v.finish()
